@@ -1002,6 +1002,13 @@ func (w *Writer) needsParens(child ir.ExpressionHandle) bool {
 		// ArrayLength expands to "1 + ..." which contains a binary operator.
 		// Matches Rust naga: ArrayLength uses is_scoped wrapping.
 		return true
+	case ir.ExprSelect:
+		// A scalar condition is written as a ternary, which binds weaker than
+		// every binary operator; metal::select(...) is already scoped.
+		if vec, ok := w.getExpressionType(k.Condition).(ir.VectorType); ok && vec.Scalar.Kind == ir.ScalarBool {
+			return false
+		}
+		return true
 	default:
 		return false
 	}
